@@ -63,7 +63,8 @@ class SimFile:
 class SimFS:
     def __init__(self, dirs=("/run",)):
         self.files = {}          # path -> Inode
-        self.dirs = set(dirs)
+        self.dirs = set(dirs) | {"/srv", "/tmp"}
+        self.cwd = "/srv"        # relative names are relative to this; /tmp is another file system than everything else
         self.fds = {}            # fd -> Inode
         self.next_fd = 100
         self.tmp_counter = 0
@@ -73,10 +74,17 @@ class SimFS:
         self.crash_at = None     # index in log before which to crash
         self.deleted = []        # (path, content at deletion, by pid)
 
+    def norm(self, p):
+        """One file has many spellings (/run/./app.pid, /run//app.pid, /run/x/../app.pid, a relative name): the kernel resolves them all."""
+        if not isinstance(p, str) or not p:
+            return p
+        if not p.startswith("/"):
+            p = posixpath.join(self.cwd, p)
+        return posixpath.normpath(p)
+
     @staticmethod
-    def norm(p):
-        """One file has many spellings (/run/./app.pid, /run//app.pid, /run/x/../app.pid): the kernel resolves them all."""
-        return posixpath.normpath(p) if isinstance(p, str) and p else p
+    def device(p):
+        return "tmpfs" if p == "/tmp" or p.startswith("/tmp/") else "rootfs"
 
     # ---- bookkeeping
     def _call(self, name, *args):
@@ -187,6 +195,8 @@ class SimFS:
             def rename(a, b):
                 a, b = fs.norm(a), fs.norm(b)
                 fs._call("rename", a, b)
+                if a in fs.files and fs.device(a) != fs.device(b):
+                    raise OSError(errno.EXDEV, "Invalid cross-device link", a)
                 if a not in fs.files:
                     raise FileNotFoundError(errno.ENOENT, "No such file", a)
                 if b in fs.files:
@@ -218,7 +228,7 @@ class SimFS:
             @staticmethod
             def mkstemp(dir=None, **kw):
                 fs._call("mkstemp", dir)
-                d = fs.norm(dir or "/tmp")
+                d = "/tmp" if dir is None else (fs.norm(dir) if dir else fs.cwd)     # dir="" is the current directory
                 fs.tmp_counter += 1
                 name = posixpath.join(d, "tmp%04d" % fs.tmp_counter)
                 ino = Inode()
@@ -239,11 +249,42 @@ class SimFS:
                 raise io.UnsupportedOperation("simfs: read-only open")
             if path not in fs.files:
                 raise FileNotFoundError(errno.ENOENT, "No such file or directory", path)
-            return io.StringIO(fs.files[path].data.decode("utf-8", "replace"))
+            data = fs.files[path].data
+
+            class _Text(io.StringIO):
+                """text-mode file: undecodable bytes raise when read, as with the real open()"""
+
+                def read(self_, *a):
+                    data.decode("utf-8")          # UnicodeDecodeError (a ValueError) like the real thing
+                    return io.StringIO.read(self_, *a)
+            return _Text(data.decode("utf-8", "replace"))
         return sim_open
+
+    def shutil_module(self):
+        fs = self
+        osm = self.os_module()
+
+        class SH:
+            @staticmethod
+            def move(src, dst, *a, **kw):
+                """shutil.move: rename, or - across file systems - copy the bytes to a new file at dst and remove src."""
+                try:
+                    osm.rename(src, dst)
+                    return dst
+                except OSError as e:
+                    if e.errno != errno.EXDEV:
+                        raise
+                s_, d_ = fs.norm(src), fs.norm(dst)
+                fd = osm.open(d_, osm.O_WRONLY | osm.O_CREAT | osm.O_TRUNC)
+                osm.write(fd, fs.files[s_].data)
+                osm.close(fd)
+                osm.unlink(s_)
+                return dst
+        return SH
 
     def install(self, module):
         """Bind module-level names of gunicorn.pidfile (or a copy) to this file system."""
         module.os = self.os_module()
         module.tempfile = self.tempfile_module()
         module.open = self.open_func()
+        module.shutil = self.shutil_module()
